@@ -591,6 +591,17 @@ func runAdmServer(name string, k int, conc int, rnd *vk.Rand, nextID *int, perCo
 			r.cases[c.ID] = c
 		}
 	}
+	// more admitted sockets (the all-accept vector is one in 4^k): five extra ones with random joins
+	for e := 0; e < 5; e++ {
+		c := &admCase{ID: *nextID, Suite: "adm", Nsp: name, K: k, Conc: conc, V: make([]int, k), J: make([]int, k),
+			Calls: []viewObs{}, Handler: []viewObs{}, Sids: []string{}, MsgMw: -1, MsgCode: -1, hch: make(chan struct{})}
+		*nextID++
+		for i := range c.J {
+			c.J[i] = rnd.Intn(4)
+		}
+		all = append(all, c)
+		r.cases[c.ID] = c
+	}
 	// sessions: up to perConn rejected attempts, then (when available) one accepted attempt
 	var rej, acc []*admCase
 	for _, c := range all {
